@@ -92,7 +92,9 @@ def r1_growth(ctx, f, rep):
             for e in p.calls():
                 if e['res'] == 'member::Members::new':
                     a = e['args'][0]
-                    rep.check(a[0] == 'call' and calls[a[1]]['res'] == 'alloc::vec::Vec::new', 'C09-R1', cb.nname,
+                    rep.check(a[0] == 'call' and calls[a[1]]['res'] in ('alloc::vec::Vec::new', 'alloc::vec::Vec::with_capacity',
+                                                                         '<alloc::vec::Vec as core::default::Default>::default'),
+                              'C09-R1', cb.nname,
                               'Members::new is given an empty Vec', site=e['span'], construct='members-new')
             break
 
